@@ -146,7 +146,14 @@ def _items(rng, n, inf_p=0.0, nonconv=False):
 OPS = ["lt", "le", "min", "distinct", "sort", "search", "steps", "drain"]
 
 
+_SORT_N = [0]
+
+
 def _case(op, items, flag=False, ib=None):
+    if op == "sort":
+        # every other sort case hands bounds.sort a one-shot generator instead of a list (see impl)
+        _SORT_N[0] += 1
+        flag = _SORT_N[0] % 2 == 0
     return {"op": op, "items": items, "flag": bool(flag), "ib": ib}
 
 
@@ -332,7 +339,8 @@ def impl(case):
             else:
                 out = []
                 ev = []
-                for x in B.sort(items):
+                # `sort` takes any Iterable: half of the cases hand it a one-shot generator instead of the list
+                for x in B.sort((y for y in items) if case.get("flag") else items):
                     ev.extend(["c"] + c for c in log)
                     del log[:]
                     ev.append(["p", x.idx])
